@@ -46,7 +46,7 @@ def main():
                 out = r.stdout
                 viol = [l for l in out.splitlines() if l.strip().startswith("key=")]
                 fired = r.returncode == 1 and "VIOLATION property=%s" % prop in out
-                if r.returncode not in (0, 1):
+                if r.returncode not in (0, 1) or (r.returncode == 1 and not fired) or "CHECK ERROR" in out:
                     verdicts.append((prop, "ERROR rc=%d: %s" % (r.returncode, out[-300:])))
                     continue
                 if m["kind"] == "breaking":
